@@ -121,13 +121,19 @@ HistNext ==
     \/ \E x \in HistArith : HistDo("add", x, NoAff, Arith("add", h, BuildTree(x, K, "dfs")))
     \/ \E x \in HistArith : HistDo("sub", x, NoAff, Arith("sub", h, BuildTree(x, K, "dfs")))
 
+\* C02: apply_func(a) is the special case of an affine right operand
+ApplyFuncAct == \E a \in TermSet(TG) :
+    /\ stage = "f" /\ MODE = "compose"
+    /\ op' = "apply_func" /\ aff' = a /\ h' = ApplyFunc(f.t, a)
+    /\ stage' = "done" /\ UNCHANGED <<f, g, sched, hist>>
+
 \* C19: the tree itself is rendered (DOT, Display)
 ApplyFormat ==
     /\ stage = "f" /\ MODE = "format"
     /\ op' = "format" /\ h' = f.t
     /\ stage' = "done" /\ UNCHANGED <<f, g, aff, sched, hist>>
 
-Next == PickF \/ PickG \/ Apply \/ ApplyAff \/ ApplyRegions \/ ApplyFault \/ ApplyFormat \/ HistStart \/ (stage \in {"h0", "h1", "h2", "h3"} /\ HistNext)
+Next == PickF \/ PickG \/ Apply \/ ApplyAff \/ ApplyRegions \/ ApplyFault \/ ApplyFormat \/ ApplyFuncAct \/ HistStart \/ (stage \in {"h0", "h1", "h2", "h3"} /\ HistNext)
 Spec == Init /\ [][Next]_vars
 
 \* ------------------------------------------------------------------ properties at design level
@@ -136,7 +142,8 @@ PF0 == Strip(Pieces(f.t))
 PG0 == Strip(Pieces(g.t))
 PH0 == Strip(Pieces(h))
 \* C02: h = g after f, undefinedness included
-LawCompose == (stage = "done" /\ op = "compose") => PwlEq(PH0, ComposePieces(PF0, PG0), D)
+LawCompose == /\ (stage = "done" /\ op = "compose") => PwlEq(PH0, ComposePieces(PF0, PG0), D)
+              /\ (stage = "done" /\ op = "apply_func") => PwlEq(PH0, ComposePieces(PF0, {[cons |-> {}, out |-> Out(aff.m, aff.b, aff.q)]}), D)
 \* C02: surviving nodes of f keep index, parent, label; decisions keep their predicate
 IndicesKept == (stage = "done" /\ op = "compose") =>
     \A i \in Occ(f.t) : /\ i \in Occ(h) /\ h.nodes[i].p = f.t.nodes[i].p
